@@ -136,6 +136,27 @@ def run(ctx, report):
                    'accepted exactly when no error was reported inside it, the group totals equal an independent count, and every '
                    'segment / element error with a standard code appears as an AK3/IK3 / AK4/IK4 under its set.  Distinct = distinct text.')
     cases = pipecorr.documents(rng, 400 if thorough else 70, thorough)
+    # several groups in one interchange, a later one re-using an earlier group control number (otherwise clean), and the same
+    # for set control numbers inside a group
+    import docgen
+    import walk_gen
+    import confgen
+    for k in range(20 if thorough else 5):
+        name = rng.choice(['835.4010.X091.A1.xml', '834.5010.X220.A1.xml', '270.4010.X092.A1.xml', '837.4010.X098.A1.xml'])
+        try:
+            segs, d, _sel = confgen.document(rng, name, ('~', '*', ':'), n_gs=rng.choice([2, 3]), n_st=rng.choice([1, 2]), p_seg=0.1, p_loop=0.15, max_segs=25)
+        except Exception:  # noqa
+            continue
+        ids = [docgen.seg_id_of(x, d) for x in segs]
+        gs = [i for i, x in enumerate(ids) if x == 'GS']
+        if len(gs) >= 2:
+            first = segs[gs[0]].split(d[1])[6]
+            j = rng.choice(gs[1:])
+            old_id = segs[j].split(d[1])[6]
+            segs[j] = walk_gen.set_elem(segs[j], d, 6, first)
+            ge = [i for i in range(j, len(segs)) if ids[i] == 'GE'][0]
+            segs[ge] = walk_gen.set_elem(segs[ge], d, 2, first)
+        cases.append(('envmut', 'duplicate group control number map=%s' % name, docgen.encode(segs, d, '')))
     pipecorr.run(report, ctx, rng, cases, 1, None, force=lambda m: m[0] == 'A')
     for (kind, what, text) in cases:
         v, trace, ack = run_impl(text)
